@@ -137,7 +137,11 @@ func checkC11(cx *Ctx, r *Report) {
 	cx.checkMetadataOfThisRequest(r)
 	cx.checkKeyPairChecked(r)
 	vm := cx.vflow(kMeta)
-	cx.checkIssuerSchemeFlag(r)
+	if cx.checkDerivedIssuerGeneric(newReport("tmp", "quick")) {
+		r.Ok("R-VFG", "derived-issuer:scheme-flag", "", "the scheme of a derived issuer is a function of the configured insecure flag alone (composition rule of C19)")
+	} else {
+		cx.checkIssuerSchemeFlag(r)
+	}
 	// GetEntityID = metadataEndpoint.Absolute(IssuerFromContext(ctx))
 	if ge := w.Func("provider.(*IdentityProvider).GetEntityID"); ge != nil {
 		ok := false
